@@ -28,7 +28,7 @@ var skipInit = map[string]bool{
 	"os/exec": true, "net": true, "internal/testlog": true, "testing": true, "log": true,
 	"math/rand": true, "math/rand/v2": true, "crypto/rand": true, "os/signal": true,
 	"internal/runtime/maps": true, "fmt": true, "os/user": true, "runtime/debug": true,
-	"internal/reflectlite": true, "internal/oserror": true, "context": true, "net/netip": true, "unique": true, "net/http": true, "net/url": true, "net/textproto": true, "mime": true, "crypto/tls": true, "crypto/x509": true, "net/http/internal": true, "golang.org/x/net/http/httpguts": true, "mime/multipart": true, "compress/gzip": true,
+	"internal/reflectlite": true, "internal/oserror": true, "context": true, "net/netip": true, "unique": true, "net/http": true, "net/url": true, "mime": true, "crypto/tls": true, "crypto/x509": true, "net/http/internal": true, "golang.org/x/net/http/httpguts": true, "compress/gzip": true,
 	vpPath: true,
 }
 
@@ -492,6 +492,16 @@ func init() {
 		fr.i.noteAlloc()
 		return nb
 	}))
+
+	// ---- GODEBUG settings: all at their defaults ----------------------------------------
+	reg("(*internal/godebug.Setting).Value", func(fr *frame, args []value) value { return "" })
+	reg("(*internal/godebug.Setting).IncNonDefault", func(fr *frame, args []value) value { return nil })
+	reg("(*internal/godebug.Setting).Name", func(fr *frame, args []value) value { return "" })
+
+	// go:linkname pull
+	reg("mime/multipart.readMIMEHeader", func(fr *frame, args []value) value {
+		return fr.i.callByName(fr, "net/textproto.readMIMEHeader", args)
+	})
 
 	// ---- hashes -------------------------------------------------------------------------
 	// the block functions are assembly (or dispatch to assembly on CPU features); the portable
